@@ -261,12 +261,15 @@ def consts(e):
             yield from consts(x)
 
 
-CATS = ["a", "b", "", "NaN", "True", "zz", None, NAN, True, False]
+# ("True"/"False" strings are left out: together with the bools they collide in JSON, which is
+# known finding C04-categorize-bool-str-collision, replayed by its own witness)
+CATS = ["a", "b", "", "NaN", "tt", "zz", None, NAN, True, False]
+STRCATS = ["a", "b", "", "NaN", "tt", "zz", None, NAN, "entries", "contentType"]
 WEIGHTS = [1.0, 1.0, 1.0, 2.0, 0.5, 0.25, 3.0, 0.0, -1.0, NAN]
 POSWEIGHTS = [1.0, 1.0, 2.0, 0.5, 0.25, 3.0]
 
 
-def datum(r, vals, fault_p=0.0, plain=False, byfield=None):
+def datum(r, vals, fault_p=0.0, plain=False, byfield=None, cats=None):
     def numv(i):
         c = r.random()
         if byfield and byfield.get(i) and c < 0.55:
@@ -281,10 +284,10 @@ def datum(r, vals, fault_p=0.0, plain=False, byfield=None):
             return r.choice([True, False])
         return float(r.randint(-3, 3))
     flag = r.random() < fault_p
-    return [numv(0), numv(1), numv(2), r.choice(CATS), flag]
+    return [numv(0), numv(1), numv(2), r.choice(cats or CATS), flag]
 
 
-def stream(r, spec, n, weights=WEIGHTS, fault_p=0.0):
+def stream(r, spec, n, weights=WEIGHTS, fault_p=0.0, cats=None):
     vals = critical_values(spec)
     bf = critical_by_field(spec)
-    return [(datum(r, vals, fault_p, byfield=bf), r.choice(weights)) for _ in range(n)]
+    return [(datum(r, vals, fault_p, byfield=bf, cats=cats), r.choice(weights)) for _ in range(n)]
